@@ -25,6 +25,8 @@ def role(th):
     return 'main'
   if 'PlugTearDownThread' in n:
     return 'plugtd'
+  if n == 'vf-abort':
+    return 'abort'
   return None
 
 
@@ -84,7 +86,7 @@ CURRENT = {}
 
 def run(prog, cfg, target=None, action='abort', second=None, inline=False,
         yield_seed=None, yield_prob=0.3, abort_after_event=None,
-        wait_s=6.0, join_s=25.0, real_sigint=False, late_cleanup_s=8.0):
+        abort_in_thread=False, wait_s=6.0, join_s=25.0, real_sigint=False, late_cleanup_s=8.0):
   """Runs one scenario.
 
   target: ((role, qualname, line), hit) pause point or None.
@@ -95,6 +97,10 @@ def run(prog, cfg, target=None, action='abort', second=None, inline=False,
           or 'after_teardown_start' to abort again once a teardown body started.
   abort_after_event: (kind, pid) -> abort as soon as that event is logged
           (no pause point; used with yield injection / discovery of windows).
+  abort_in_thread: with abort_after_event, the abort is performed by a thread
+          of role 'abort' which can itself be the paused thread (target role
+          'abort'): the aborting thread is then held at that line for 150 ms
+          while the framework threads run on.
   """
   L = lab()
   eng, H, td = L['engine'], L['H'], L['td']
@@ -217,7 +223,27 @@ def run(prog, cfg, target=None, action='abort', second=None, inline=False,
       ctrl_done.set()
 
   def _controller(mt_alive):
-    if target is not None and not inline and action:
+    if abort_in_thread and abort_after_event is not None:
+      t_end = time.monotonic() + wait_s
+      kind, pid = abort_after_event
+      hit = False
+      while time.monotonic() < t_end and mt_alive() and not hit:
+        hit = any(e[2] == kind and e[3] == pid for e in list(log.events))
+        if not hit:
+          time.sleep(0.0005)
+      if not hit:
+        return
+      at = threading.Thread(target=do_abort, name='vf-abort', daemon=True)
+      at.start()
+      if target is not None:
+        act = eng.run_action_at_pause(lambda: time.sleep(0.15), wait_s=wait_s,
+                                      hold_s=0.3)
+        info['reached'] = act['reached']
+      else:
+        info['reached'] = True
+      at.join(join_s)
+      info['abort_thread_alive'] = at.is_alive()
+    elif target is not None and not inline and action:
       act = eng.run_action_at_pause(do_abort, wait_s=wait_s, hold_s=0.25)
       info['reached'], info['blocked'] = act['reached'], act['blocked']
       if act.get('_done'):
@@ -289,7 +315,8 @@ def run(prog, cfg, target=None, action='abort', second=None, inline=False,
                      'vjoin')
       all_blocked = all(st and st[-1][0] in blocked_fns
                         for name, st in s2.items()
-                        if name not in ('vf-watchdog', 'vf-ctrl', 'vf-action'))
+                        if name not in ('vf-watchdog', 'vf-ctrl', 'vf-action',
+                                        'vf-abort'))
       hang = {'same_stacks': s1 == s2 and all_blocked, 'stacks': s2}
       eng.release()
   finally:
